@@ -672,4 +672,230 @@ theorem C15_heap_reqid_isolated (s : Store) (hc : Closed s) (tc : Addr) (htc : t
   have hsep := C15_heap_reqid_separated s hc hdr (hl hdr (by simp [headerOf, hct, hr])) rid s' h2 tc htc
   exact ⟨hsep, (C02_heap_tc_setters_frame s' tc rid hsep ops).1⟩
 
+/-- SEPARATION (since b7949db): the header `copy.deepcopy` makes has no cell in common with any object that existed -/
+private theorem deepCopyHeader_separated (s : Store) (hc : Closed s) (hdr : Addr) (hl : KidsAreLeaves s hdr)
+    (h' : Addr) (s' : Store) (h : (deepCopyHeader hdr).run s = some (h', s')) :
+    ∃ t, s' = s ++ t ∧ (∀ c ∈ t, ∀ r ∈ c.kids, s.length ≤ r) ∧ s.length ≤ h' := by
+  unfold deepCopyHeader at h
+  obtain ⟨ch, s0, h0, h01⟩ := (run_bind_some _ _ _ _ _).mp h
+  obtain ⟨hch, e⟩ := (cellAt_run _ _ _ _).mp h0
+  subst s0
+  obtain ⟨pid, s1, h1, h2⟩ := (run_bind_some _ _ _ _ _).mp h01
+  obtain ⟨⟨ch1, hch1, hpid⟩, e1⟩ := (ref_run _ _ _ _ _).mp h1
+  subst s1
+  obtain ⟨psc, s2, h3, h4⟩ := (run_bind_some _ _ _ _ _).mp h2
+  obtain ⟨⟨ch2, hch2, hpsc⟩, e2⟩ := (ref_run _ _ _ _ _).mp h3
+  subst s2
+  have e3 : ch1 = ch := by rw [hch] at hch1; exact (Option.some.inj hch1).symm
+  have e4 : ch2 = ch := by rw [hch] at hch2; exact (Option.some.inj hch2).symm
+  subst e3 e4
+  obtain ⟨pid', s4, h7, h8⟩ := (run_bind_some _ _ _ _ _).mp h4
+  obtain ⟨cp, hcp, e5, e6⟩ := (copyCell_run _ _ _ _).mp h7
+  subst pid' s4
+  obtain ⟨psc', s5, h9, h10⟩ := (run_bind_some _ _ _ _ _).mp h8
+  obtain ⟨cq, hcq, e7, e8⟩ := (copyCell_run _ _ _ _).mp h9
+  subst psc' s5
+  obtain ⟨e9, e10⟩ := (new_run _ _ _ _).mp h10
+  subst h' s'
+  have hql : psc < s.length := closed_kid_lt hc hch (kid_of_ref hpsc)
+  rw [List.getElem?_append_left hql] at hcq
+  have hkp : cp.kids = [] := leaf_kids (hl pid (by simp [hch, kid_of_ref hpid])) hcp
+  have hkq : cq.kids = [] := leaf_kids (hl psc (by simp [hch, kid_of_ref hpsc])) hcq
+  refine ⟨[cp, cq, { ch2 with refs := [some s.length, some (s.length + 1)] }], by simp, ?_, by simp⟩
+  intro c hcm r hr
+  simp only [List.mem_cons, List.not_mem_nil, or_false] at hcm
+  rcases hcm with rfl | rfl | rfl
+  · simp [hkp] at hr
+  · simp [hkq] at hr
+  · simp [Cell.kids] at hr; rcases hr with rfl | rfl <;> simp
+
+/-- C02, all histories: the generic space-packet view of a telecommand (`to_space_packet()`) has no cell in common with
+    any object that existed before — in particular not with the telecommand — and no sequence of setter calls on the
+    telecommand afterwards changes anything readable through it -/
+theorem C02_heap_space_packet_isolated (s : Store) (hc : Closed s) (tc : Addr) (htc : tc < s.length)
+    (hl : ∀ hdr, headerOf s tc = some hdr → KidsAreLeaves s hdr)
+    (sp : Addr) (s' : Store) (h : (tcToSpacePacket tc).run s = some (sp, s')) (ops : List TcOp) :
+    (∀ b, b < s.length → Disjoint (reach s' sp) (reach s' b)) ∧ view (runOps (tcSet tc) ops s') sp = view s' sp := by
+  unfold tcToSpacePacket at h
+  obtain ⟨hdr, s1, h1, h2⟩ := (run_bind_some _ _ _ _ _).mp h
+  obtain ⟨⟨ct, hct, hr⟩, e⟩ := (ref_run _ _ _ _ _).mp h1
+  subst s1
+  obtain ⟨n, s2, h3, h4⟩ := (run_bind_some _ _ _ _ _).mp h2
+  obtain ⟨_, e⟩ := (scalAt_run _ _ _ _ _).mp h3
+  subst s2
+  obtain ⟨hdr', s3, h5, h6⟩ := (run_bind_some _ _ _ _ _).mp h4
+  obtain ⟨t, e, ht, hh⟩ := deepCopyHeader_separated s hc hdr (hl hdr (by simp [headerOf, hct, hr])) hdr' s3 h5
+  subst s3
+  obtain ⟨e1, e2⟩ := (new_run _ _ _ _).mp h6
+  subst sp s'
+  have hsep : ∀ b, b < s.length → Disjoint (reach (s ++ t ++ [⟨.spacePacket, [some hdr'], [5, n + 2]⟩]) (s ++ t).length)
+      (reach (s ++ t ++ [⟨.spacePacket, [some hdr'], [5, n + 2]⟩]) b) := by
+    intro b hb
+    rw [List.append_assoc]
+    apply C11_heap_fresh_disjoint depth s _ _ b hc hb
+    · intro c hcm r hr'
+      rcases List.mem_append.mp hcm with hm | hm
+      · exact ht c hm r hr'
+      · simp only [List.mem_cons, List.not_mem_nil, or_false] at hm
+        subst hm
+        simp [Cell.kids] at hr'
+        subst hr'
+        exact hh
+    · simp
+  exact ⟨hsep, (C02_heap_tc_setters_frame _ tc _ (hsep tc htc) ops).1⟩
+
+private theorem new_run_eq (c : Cell) (s : Store) : (new c).run s = some (s.length, s ++ [c]) := rfl
+
+private theorem closed_append {s t : Store} (hc : Closed s) (ht : ∀ c ∈ t, ∀ r ∈ c.kids, r < s.length + t.length) :
+    Closed (s ++ t) := by
+  intro c hcm r hr
+  rw [List.length_append]
+  rcases List.mem_append.mp hcm with hm | hm
+  · exact Nat.lt_of_lt_of_le (hc c hm r hr) (Nat.le_add_right _ _)
+  · exact ht c hm r hr
+
+/-- a decoder result is separated from everything that existed before: `<Pdu>.unpack(raw)` of every kind returns an
+    object graph (PDU, base, header, configuration, byte fields, parameter objects, lists, TLVs) of NEW cells only -/
+theorem C11_heap_unpack_fresh (k : PduKind) (idw seqw : Nat) (withObj : Bool) (scal : List Nat) (s : Store) (hc : Closed s)
+    (dec : Addr) (s' : Store) (h : (unpackPdu k idw seqw withObj scal).run s = some (dec, s')) (b : Addr) (hb : b < s.length) :
+    Disjoint (reach s' dec) (reach s' b) := by
+  cases k <;> cases withObj <;>
+    simp [unpackPdu, newByteField, newPduConfig, newDirective, newPduHeader, newFileDataParams, newSegMeta, newFinishedParams,
+      StateT.run_bind, new_run_eq, PduKind.tag, PduKind.code] at h <;>
+    obtain ⟨rfl, rfl⟩ := h <;>
+    (try simp only [List.append_assoc, List.cons_append, List.nil_append]) <;>
+    apply C11_heap_fresh_disjoint depth s _ _ b hc hb <;>
+    first | omega | (simp [Cell.kids]; done) | (simp [Cell.kids]; omega)
+
+/-- two results of a factory are separated: `FinishedParams.success_params()` / `.empty()` / `FileDataParams.empty()` /
+    `PduConfig.default()` called twice give object graphs without a common cell (a new list / new byte fields per call) -/
+theorem C11_heap_factory_results_separated (s : Store) (hc : Closed s) (which : Fin 4) (a b : Addr) (s1 s2 : Store)
+    (h1 : (match which with
+      | 0 => finishedSuccessParams | 1 => finishedEmptyParams | 2 => fileDataEmptyParams | 3 => pduConfigDefault).run s = some (a, s1))
+    (h2 : (match which with
+      | 0 => finishedSuccessParams | 1 => finishedEmptyParams | 2 => fileDataEmptyParams | 3 => pduConfigDefault).run s1 = some (b, s2)) :
+    Disjoint (reach s2 b) (reach s2 a) := by
+  match which with
+  | 0 | 1 | 2 | 3 =>
+    simp [finishedSuccessParams, finishedEmptyParams, fileDataEmptyParams, pduConfigDefault, newFinishedParams, newFileDataParams,
+      newByteField, newPduConfig, StateT.run_bind, new_run_eq] at h1 h2
+    obtain ⟨rfl, rfl⟩ := h1
+    obtain ⟨rfl, rfl⟩ := h2
+    apply C11_heap_fresh_disjoint depth _ _ _ _
+    · apply closed_append hc
+      simp [Cell.kids] <;> omega
+    · simp
+    · simp [Cell.kids] <;> omega
+    · simp
+
+/-! ## (d) where the code SHARES — stated as it is -/
+
+/-- the exact alias relation after a CFDP PDU constructor (all eight kinds): the PDU's configuration is a NEW cell (not the
+    caller's), it holds the caller's three byte-field objects (the same addresses: `copy.copy` is shallow), its scalars are
+    the caller's except the direction of the kind, the new header refers to it, and the caller's cell is unchanged -/
+theorem C11_heap_conf_bytefields_shared (k : PduKind) (conf : Addr) (objs : List (Option Addr)) (scal : List Nat) (af : Bool)
+    (fl dl : Nat) (s : Store) (cc : Cell) (hcc : s[conf]? = some cc) (pdu : Addr) (s' : Store)
+    (h : (newPdu k conf objs scal af fl dl).run s = some (pdu, s')) :
+    s'[s.length]? = some { cc with scal := cc.scal.set 3 (k.dir af) } ∧ s.length ≠ conf ∧ s'[conf]? = some cc ∧
+    (∃ hs, s'[s.length + 1]? = some ⟨.pduHeader, [some s.length], hs⟩) := by
+  have hlt : conf < s.length := (List.getElem?_eq_some_iff.mp hcc).1
+  have hne : s.length ≠ conf := fun e => by rw [e] at hlt; exact Nat.lt_irrefl _ hlt
+  unfold newPdu at h
+  obtain ⟨conf', s1, h1, h2⟩ := (run_bind_some _ _ _ _ _).mp h
+  unfold copyConfWithDir at h1
+  obtain ⟨c0, s0, h3, h4⟩ := (run_bind_some _ _ _ _ _).mp h1
+  obtain ⟨hc0, e⟩ := (cellAt_run _ _ _ _).mp h3
+  subst s0
+  have e0 : c0 = cc := by rw [hcc] at hc0; exact (Option.some.inj hc0).symm
+  subst e0
+  obtain ⟨e1, e2⟩ := (new_run _ _ _ _).mp h4
+  subst conf' s1
+  cases k <;>
+    simp [newDirective, newPduHeader, StateT.run_bind, new_run_eq] at h2 <;>
+    obtain ⟨rfl, rfl⟩ := h2 <;>
+    refine ⟨?_, hne, ?_, ?_⟩ <;>
+    first
+      | (rw [List.getElem?_append_left hlt]; exact hc0)
+      | simp [List.getElem?_append_right]
+
+/-- the call does not raise and its result and the store afterwards satisfy `P` -/
+def Holds {α : Type} (r : Option (α × Store)) (P : α → Store → Prop) : Prop := ∃ a s', r = some (a, s') ∧ P a s'
+
+instance {α : Type} (r : Option (α × Store)) (P : α → Store → Prop) [∀ a s, Decidable (P a s)] : Decidable (Holds r P) :=
+  match r with
+  | none => isFalse (by rintro ⟨a, s', h, _⟩; cases h)
+  | some (a, s') =>
+    if h : P a s' then isTrue ⟨a, s', rfl, h⟩
+    else isFalse (by rintro ⟨a', s'', e, h'⟩; cases e; exact h h')
+
+/-! ## concrete stores: non-vacuity of the hypotheses, and the NEGATIVE results for the designs that share -/
+
+/-- one telecommand built by the constructor in the empty store: cells `[sec, pid, psc, hdr, tc]`, the telecommand at 4 -/
+def exTcStore : Store :=
+  match (newPusTc 17 1 66 5 0 15 3).run [] with
+  | some (_, s) => s
+  | none => []
+
+/-- the hypotheses of `C15_heap_reqid_isolated` / `C02_heap_space_packet_isolated` hold for a store built by the
+    constructor, and both calls succeed on it -/
+example : Closed exTcStore ∧ 4 < exTcStore.length ∧ headerOf exTcStore 4 = some 3 ∧ KidsAreLeaves exTcStore 3 ∧
+    ((reqIdFromPusTc 4).run exTcStore).isSome ∧ ((tcToSpacePacket 4).run exTcStore).isSome := by decide
+
+/-- … and the setter sequences of those theorems really change the telecommand (the statement is not about no-ops) -/
+example : view (runOps (tcSet 4) [.apid 7, .seqCount 9, .appData 300000, .sourceId 2, .appData 1] exTcStore) 4 ≠ view exTcStore 4 := by
+  decide
+
+/-- NEGATIVE (the code before 840b2f2): a request ID that holds the header's own `PacketId` / `PacketSeqCtrl` objects is
+    NOT a snapshot — one `apid` assignment on the telecommand changes what is read through the request ID -/
+theorem C15_heap_shared_variant_not_isolated :
+    Holds ((reqIdFromPusTcShared 4).run exTcStore) fun rid s' =>
+      view (runOps (tcSet 4) [.apid 7] s') rid ≠ view s' rid ∧ ¬ Disjoint (reach s' rid) (reach s' 4) := by decide
+
+/-- the same call sequence with the code as it is: the view through the request ID stays -/
+example :
+    Holds ((reqIdFromPusTc 4).run exTcStore) fun rid s' =>
+      view (runOps (tcSet 4) [.apid 7] s') rid = view s' rid ∧ Disjoint (reach s' rid) (reach s' 4) := by decide
+
+/-- NEGATIVE (the code before b7949db): a space-packet view that holds the telecommand's own header changes with it -/
+theorem C02_heap_shared_variant_not_isolated :
+    Holds ((tcToSpacePacketShared 4).run exTcStore) fun sp s' =>
+      view (runOps (tcSet 4) [.seqCount 9] s') sp ≠ view s' sp ∧ ¬ Disjoint (reach s' sp) (reach s' 4) := by decide
+
+example :
+    Holds ((tcToSpacePacket 4).run exTcStore) fun sp s' =>
+      view (runOps (tcSet 4) [.seqCount 9] s') sp = view s' sp ∧ Disjoint (reach s' sp) (reach s' 4) := by decide
+
+/-- a caller's configuration (three byte fields at 0, 1, 2, the `PduConfig` at 3) and its parameter object for a Finished
+    PDU (list at 4, parameters at 5) -/
+def exConfStore : Store :=
+  [⟨.byteField, [], [2, 513]⟩, ⟨.byteField, [], [2, 1027]⟩, ⟨.byteField, [], [1, 9]⟩,
+   ⟨.pduConfig, [some 0, some 1, some 2], [0, 1, 1, 0, 0]⟩, ⟨.pyList, [], []⟩, ⟨.finishedParams, [some 4, none], [0, 0, 2]⟩]
+
+/-- the constructors run on it, it is closed (hypotheses of the `…_inputs_untouched` theorems and of
+    `C11_heap_conf_bytefields_shared`), and a NAK PDU built from a configuration whose direction is "towards receiver" gets
+    its own direction on its own copy -/
+example : Closed exConfStore ∧ ((newNakPdu 3 0 100 none).run exConfStore).isSome ∧ ((newFinishedPdu 3 5).run exConfStore).isSome ∧
+    (Holds ((newNakPdu 3 0 100 none).run exConfStore) fun _ s' =>
+      s'[3]? = exConfStore[3]? ∧ (s'[7]?.map Cell.scal) = some [0, 1, 1, 1, 0]) := by decide
+
+/-- TRUTHFUL consequence of the shallow copy: assigning `.value` of a byte field the caller's configuration holds DOES
+    change what is read through a PDU built from it earlier (the byte-field object is shared) … -/
+theorem C11_heap_conf_bytefield_write_visible :
+    Holds ((newKeepAlivePdu 3 77).run exConfStore) fun pdu s' =>
+      Holds ((confSetFieldValue 3 0 99).run s') fun _ s'' => view s'' pdu ≠ view s' pdu := by decide
+
+/-- TRUTHFUL: the setters of a Finished PDU write into the parameter object the caller passed to the constructor
+    (`pdu.condition_code = …` changes the caller's `FinishedParams`); the constructor itself does not -/
+theorem C11_heap_finished_setter_writes_caller_params :
+    Holds ((newFinishedPdu 3 5).run exConfStore) fun pdu s' =>
+      view s' 5 = view exConfStore 5 ∧ (s'[pdu]?.map Cell.refs) = some [some 8, some 5] ∧
+      Holds ((finSet pdu (.cond 4)).run s') fun _ s'' => view s'' 5 ≠ view s' 5 := by decide
+
+/-- TRUTHFUL: `PusTc.from_sp_header(header, …)` adopts AND modifies the caller's header (documented behaviour of that
+    factory: packet type, secondary-header flag and data length are assigned on it) -/
+theorem C02_heap_tc_from_sp_header_writes_caller_header :
+    Holds ((newSpHeader 0 66 5 0 0 3 0).run []) fun hdr s =>
+      Holds ((tcFromSpHeader hdr 17 1 0 15 3).run s) fun tc s' => view s' hdr ≠ view s hdr ∧ headerOf s' tc = some hdr := by
+  decide
+
 end SpVerif.Props.C11Heap
